@@ -1644,203 +1644,6 @@ class ForkCtl:
         os.write(self.tok_w, b'x')
 
 
-class ForkPathCtx(PathCtx):
-    def __init__(self, stats, ctl, timeout_ms=20000):
-        PathCtx.__init__(self, [], stats, timeout_ms)
-        self.ctl = ctl
-
-    def branch(self, cond):
-        if isinstance(cond, bool):
-            return cond
-        if isinstance(cond, int):
-            return bool(cond)
-        cond = z3.simplify(cond)
-        if z3.is_true(cond):
-            return True
-        if z3.is_false(cond):
-            return False
-        ctl = self.ctl
-        if ctl.abort.value:
-            raise _Abort()
-        if ctl.deadline and time.time() > ctl.deadline:
-            ctl.abort.value = 2
-            raise _Abort()
-        t = self.feasible(cond)
-        f = self.feasible(z3.Not(cond))
-        if t and f:
-            self.stats['forks'] += 1
-            d = self._fork()
-        elif t:
-            d = True
-        elif f:
-            d = False
-        else:
-            raise PathEnd('infeasible')
-        self.decisions.append(d)
-        c = cond if d else z3.Not(cond)
-        self.pc.append(c)
-        self.solver.add(c)
-        return d
-
-    def _fork(self):
-        ctl = self.ctl
-        got = ctl.try_acquire()
-        rfd = wfd = None
-        if not got:
-            rfd, wfd = os.pipe()
-        sys.stdout.flush()
-        pid = os.fork()
-        if pid == 0:
-            # child: explores the True side
-            if not got:
-                os.close(rfd)
-            ctl.own_token = got
-            for k in self.stats:
-                self.stats[k] = 0 if not isinstance(self.stats[k], float) else 0.0
-            return True
-        if not got:
-            os.close(wfd)
-            while True:
-                try:
-                    if not os.read(rfd, 1):
-                        break
-                except InterruptedError:
-                    continue
-            os.close(rfd)
-        return False
-
-
-class _Abort(Exception):
-    pass
-
-
-def explore_fork(engine, run, on_path, jobs=16, max_paths=20000, deadline=None, scratch=None, timeout_ms=20000):
-    """run(engine) executes from the start on engine.ctx; on_path(PathResult) -> json-able dict runs in the leaf.
-    Returns (list of leaf dicts, aggregated stats).  Raises Inconclusive if any leaf was inconclusive, the path cap
-    or the deadline was hit."""
-    import tempfile
-    import shutil
-    scratch = scratch or tempfile.mkdtemp(prefix='mirsym_', dir=os.environ.get('MIRSYM_SCRATCH', '/verif/.cache'))
-    os.makedirs(scratch, exist_ok=True)
-    ctl = ForkCtl(jobs, scratch, max_paths, deadline)
-    eof_r, eof_w = os.pipe()
-    sys.stdout.flush()
-    root = os.fork()
-    if root == 0:
-        # worker tree
-        os.close(eof_r)
-        signal.signal(signal.SIGCHLD, signal.SIG_IGN)
-        stats = new_stats()
-        ctx = ForkPathCtx(stats, ctl, timeout_ms)
-        engine.ctx = ctx
-        engine.depth = 0
-        engine.call_stack = []
-        out = {}
-        code = 0
-        try:
-            try:
-                value, extra = run(engine)
-                res = PathResult('return', value, None, ctx, extra)
-            except PathEnd as e:
-                if e.kind == 'infeasible':
-                    res = None
-                    stats['infeasible'] += 1
-                else:
-                    res = PathResult(e.kind, None, e.info, ctx, None)
-            if res is not None:
-                with ctl.paths.get_lock():
-                    ctl.paths.value += 1
-                    n = ctl.paths.value
-                if n > ctl.max_paths:
-                    ctl.abort.value = 1
-                    out = {'_abort': 'path cap'}
-                else:
-                    stats['paths'] += 1
-                    out = on_path(res) or {}
-        except _Abort:
-            out = {'_abort': 'abort'}
-        except Inconclusive as e:
-            out = {'_inconclusive': str(e)[:2000], '_stack': list(engine.call_stack[-6:])}
-        except BaseException as e:  # model bug: report, never pass silently
-            import traceback
-            out = {'_inconclusive': 'engine error: %r' % (e,), '_trace': traceback.format_exc()[-3000:]}
-        try:
-            out['_stats'] = stats
-            out['_decisions'] = len(ctx.decisions)
-            out['_encoded'] = {k: list(v) for k, v in engine.encoded.items()}
-            out['_models'] = dict(engine.models_used)
-            with open(os.path.join(scratch, 'leaf-%d.json' % os.getpid()), 'w') as f:
-                json.dump(out, f)
-        finally:
-            if ctl.own_token:
-                try:
-                    ctl.release()
-                except OSError:
-                    pass
-            os._exit(0)
-    os.close(eof_w)
-    while True:
-        try:
-            if not os.read(eof_r, 1):
-                break
-        except InterruptedError:
-            continue
-    os.close(eof_r)
-    try:
-        os.waitpid(root, 0)
-    except ChildProcessError:
-        pass
-    leaves = []
-    agg = new_stats()
-    encoded = {}
-    models = {}
-    problems = []
-    for fn in sorted(os.listdir(scratch)):
-        if not fn.startswith('leaf-'):
-            continue
-        with open(os.path.join(scratch, fn)) as f:
-            try:
-                d = json.load(f)
-            except Exception:
-                problems.append('unreadable leaf file %s' % fn)
-                continue
-        st = d.pop('_stats', {})
-        for k, v in st.items():
-            agg[k] = agg.get(k, 0) + v
-        encoded.update(d.pop('_encoded', {}))
-        for k, v in d.pop('_models', {}).items():
-            models[k] = models.get(k, 0) + v
-        if '_inconclusive' in d:
-            problems.append(d['_inconclusive'] + ' @ ' + ' > '.join(x[-60:] for x in d.get('_stack', [])) + d.get('_trace', ''))
-            continue
-        if '_abort' in d:
-            continue
-        leaves.append(d)
-    shutil.rmtree(scratch, ignore_errors=True)
-    os.close(ctl.tok_r)
-    os.close(ctl.tok_w)
-    engine.encoded.update({k: tuple(v) for k, v in encoded.items()})
-    for k, v in models.items():
-        engine.models_used[k] = engine.models_used.get(k, 0) + v
-    if ctl.abort.value == 1:
-        problems.append('path cap %d reached' % max_paths)
-    elif ctl.abort.value == 2:
-        problems.append('time cap reached')
-    if problems:
-        e = Inconclusive('; '.join(sorted(set(problems))[:5]))
-        e.leaves = leaves
-        e.stats = agg
-        raise e
-    return leaves, agg
-
-
-# ---------------------------------------------------------------------------------------
-# parallel replay-DFS: the master expands the decision tree breadth-first until the frontier is wide enough, then
-# hands each frontier prefix (a subtree) to a pool of forked workers; every leaf evaluates on_path() where it ran.
-
-_PAR = {}
-
-
 def _leaf(engine, ctx, run, on_path, stats):
     """execute one path on ctx; returns (leaf dict | None, alternatives)"""
     engine.ctx = ctx
